@@ -51,9 +51,15 @@ Proof. vm_compute. reflexivity. Qed.
 Lemma tie_flag_count : N.of_nat (List.length GenFlags.init_flags) = 26.
 Proof. vm_compute. reflexivity. Qed.
 
-(* which variant of the model describes the code NOW: the repaired one iff no regexp.MustCompile on user text is left
+(* which variant of the model describes the code NOW: the repaired one iff no regexp.MustCompile on user text is left and
+   IntialGlobalVar allocates IgnoreVarMap
    (extracted; the correspondence check runs the model with this value) *)
-Definition fixed_regexp_now : bool := negb GenFlags.must_compile_user_text.
+Definition fixed_regexp_now : bool := negb GenFlags.must_compile_user_text && GenFlags.var_map_allocated_at_init.
+
+(* the code in /repo is the repaired variant (both fix: commits are in place): re-proved against the regenerated table on
+   every run - re-introducing MustCompile on user text or dropping the allocation breaks this proof *)
+Lemma tie_repaired_now : fixed_regexp_now = true.
+Proof. vm_compute. reflexivity. Qed.
 
 (* the statement of C17_flag_type_bijection, over the generated lists *)
 Lemma flag_type_bijection :
